@@ -54,6 +54,13 @@ func genBase(t *rapid.T, mode string) (*model.G, []byte, []refwkb.Field) {
 }
 
 func genBaseH(t *rapid.T, mode string) (*model.G, []byte, []refwkb.Field, []int) {
+	g, b, f, tw, _ := genBaseM(t, mode)
+	return g, b, f, tw
+}
+
+// genBaseM: a reference encoding; in a third of them members use another byte
+// order than their parents (each geometry has its own byte-order mark).
+func genBaseM(t *rapid.T, mode string) (*model.G, []byte, []refwkb.Field, []int, []bool) {
 	o := gen.TreeOpts{
 		Layouts: gen.Layouts4, Floats: gen.SmallInt | gen.CanonNaN | gen.Infs, MaxDepth: 3, MaxParts: 3, MaxPts: 4,
 		MixLayouts: rapid.Bool().Draw(t, "mix"), FixEmptyCollections: true, PEmpty: 20,
@@ -65,12 +72,32 @@ func genBaseH(t *rapid.T, mode string) (*model.G, []byte, []refwkb.Field, []int)
 		o.NoEmptyPoint = true
 	}
 	g := gen.Tree(t, o)
-	data, fields, tw, err := refwkb.EncodeWithHeaders(g, rapid.Bool().Draw(t, "xdr"), refMode(mode))
+	var flip func(int) bool
+	if rapid.IntRange(0, 2).Draw(t, "mixedorder") == 0 {
+		mask := rapid.Uint64().Draw(t, "flipmask")
+		flip = func(n int) bool { return mask>>(uint(n)%64)&1 == 1 }
+	}
+	data, fields, tw, twbe, err := refwkb.EncodeMixed(g, rapid.Bool().Draw(t, "xdr"), refMode(mode), flip)
 	if err != nil {
 		// NoLayout etc. cannot happen with these options
 		panic(err)
 	}
-	return g, data, fields, tw
+	return g, data, fields, tw, twbe
+}
+
+func put32o(data []byte, off int, v uint32, bigEndian bool) {
+	if bigEndian {
+		binary.BigEndian.PutUint32(data[off:], v)
+	} else {
+		binary.LittleEndian.PutUint32(data[off:], v)
+	}
+}
+
+func get32o(data []byte, off int, bigEndian bool) uint32 {
+	if bigEndian {
+		return binary.BigEndian.Uint32(data[off:])
+	}
+	return binary.LittleEndian.Uint32(data[off:])
 }
 
 func get32(data []byte, off int) uint32 {
@@ -95,7 +122,7 @@ func put32(data []byte, off int, v uint32) {
 func genCase(t *rapid.T) Case {
 	mode := rapid.SampledFrom([]string{"ewkb", "wkb-nan", "wkb-err"}).Draw(t, "mode")
 	class := rapid.SampledFrom([]string{"forgery", "forgery", "mutant", "mutant", "mutant", "valid", "splice"}).Draw(t, "class")
-	_, data, fields, typeWords := genBaseH(t, mode)
+	_, data, fields, typeWords, typeWordBE := genBaseM(t, mode)
 	c := Case{Class: class, Mode: mode}
 	limitSet := []int{0, 1, 3, 64, 4096}
 	switch rapid.IntRange(0, 5).Draw(t, "limitclass") {
@@ -142,22 +169,23 @@ func genCase(t *rapid.T) Case {
 		f := rapid.SampledFrom(cand).Draw(t, "field")
 		lim := c.Limits[f.Level-1]
 		v := rapid.SampledFrom(append([]uint32{uint32(lim + 1)}, hostile...)).Draw(t, "forged")
-		put32(data, f.Offset, v)
+		put32o(data, f.Offset, v, f.BigEndian)
 		c.FOffset, c.FLevel, c.FValue = f.Offset, f.Level, v
 	case "mutant":
 		for m := rapid.IntRange(1, 3).Draw(t, "nmut"); m > 0 && len(data) > 0; m-- {
 			switch rapid.IntRange(0, 8).Draw(t, "mut") {
 			case 7, 8: // change the dimension flags / code or the type id of one (member) header
 				if len(typeWords) > 0 {
-					off := typeWords[rapid.IntRange(0, len(typeWords)-1).Draw(t, "header")]
+					hi := rapid.IntRange(0, len(typeWords)-1).Draw(t, "header")
+					off := typeWords[hi]
 					if off+4 <= len(data) {
-						v := get32(data, off)
+						v := get32o(data, off, typeWordBE[hi])
 						if mode == "ewkb" {
 							v ^= rapid.SampledFrom([]uint32{0x80000000, 0x40000000, 0xC0000000, 0x20000000, 1, 2, 3, 7}).Draw(t, "flip")
 						} else {
 							v = uint32(int64(v) + rapid.SampledFrom([]int64{1000, -1000, 2000, 1, -1, 3}).Draw(t, "delta"))
 						}
-						put32(data, off, v)
+						put32o(data, off, v, typeWordBE[hi])
 					}
 				}
 			case 0: // truncate
@@ -170,7 +198,7 @@ func genCase(t *rapid.T) Case {
 					f := rapid.SampledFrom(fields).Draw(t, "field")
 					if f.Offset+4 <= len(data) {
 						v := rapid.SampledFrom(append([]uint32{0, 1, 2, 5, 65, 4097}, hostile...)).Draw(t, "v")
-						put32(data, f.Offset, v)
+						put32o(data, f.Offset, v, f.BigEndian)
 					}
 				}
 			case 3: // swap the byte-order byte of the top level
